@@ -125,6 +125,7 @@ def jobs(tier, seed):
         for strict in (True, False):
             out.append(('nested-tail.extra=%d.%s' % (extra, 'strict' if strict else 'lenient'), 'h_nested_tail', dict(extra=extra, strict=strict)))
     out.append(('spare.variable-length', 'h_spare_var', {}))
+    out.append(('buf.non-buffer-value', 'h_buf_value', {}))
     return out
 
 
@@ -143,6 +144,10 @@ def build_field(T, nd):
     k = nd[0]
     if k == 'uint':
         _, name, nb, sg, bo, off, mult = nd
+        if (nb + len(name)) % 2 == 0:
+            # width declared per field (len=...) on a class whose default width is another one
+            cls = type('I', (c.Uint,), dict(SIGN=bool(sg), BO=bo, DEF_LEN=1 if nb != 1 else 2))
+            return cls(name, len=nb, offset=off, mult=mult)
         cls = type('I', (c.Uint,), dict(SIGN=bool(sg), BO=bo, DEF_LEN=nb))
         return cls(name, offset=off, mult=mult)
     if k == 'buf':
@@ -524,3 +529,23 @@ def h_spare_var(ctx):
             d = cls()
             with ctx.no_raise('decode[%d]:own-output-accepted' % k):
                 d.from_bytes(data)
+
+
+def h_buf_value(ctx):
+    """a value that is not a buffer (an integer) in a buffer field is refused on encoding - fixed-length, variable-length and
+    flexible buffers alike (the unmodified codec raises TypeError from bytes.join here, outside its per-field wrapper: accepted as
+    a refusal, the type of the exception is not claimed)"""
+    T = env.load(ctx, 'codec')
+    c = T.codec
+    with env.symbolic(ctx):
+        x = ctx.int('dummy', 0, 1); ctx.check('dummy', x >= 0)
+        for n in (0, 3, 5):
+            for name, mk in (('fixed', lambda: c.Buf('b', len=3)), ('flexible', lambda: c.Buf('b'))):
+                cls = type('B', (c.Envelope,), dict(STRUCT=(mk(), )))
+                e = cls(); e['b'] = n
+                refused = False
+                try:
+                    e.to_bytes()
+                except (c.EncodeError, TypeError):
+                    refused = True
+                ctx.check('%s:integer-value-%d-refused' % (name, n), refused)
